@@ -382,7 +382,18 @@ def rule_e(ctx):
         if b.id != ms.id:
             continue
         ctx.check(("arg", 2) in b.atoms(t["args"][1]) and ("arg", 3) in b.atoms(t["args"][2]) and ("arg", 4) in b.atoms(t["args"][3]),
-                  "C19-E", "merge→maybe_update:args-straight#%s" % b.expr(t["args"][0]), t["span"], b.id, "")
+                  "C19-E", "merge→maybe_update:args-straight#%s" % b.canon(t["args"][0]), t["span"], b.id, "")
+        # every declaration of a kind is offered to the cascade: the call depends only on *which kind* of style (and
+        # which pseudo-element target) it is, never on the declared or the current value — maybe_update also records
+        # the winner's priority, so skipping a "redundant" update loses it
+        conds = []
+        for (a, s) in b.cdeps_transitive(bb):
+            neg, src = b.switch_source(a)
+            if src[0] == "discr":
+                continue
+            conds.append("%s@%s" % (src[0], b.term(a)["span"]))
+        ctx.check(not conds, "C19-E", "merge→maybe_update:unconditional#%s" % b.canon(t["args"][0]), t["span"], b.id,
+                  "this maybe_update call is skipped depending on %s; only the kind of declaration may decide" % conds)
 
 
 DECL_SEQ = ("StyleDecl", "Ruleset", "css::parser::Declaration", "css::parser::RuleSet", "css::Style,", "css::Style>")
